@@ -45,6 +45,8 @@ def run(tier):
     corpus.validate_property(rep, "C03", allt, need=("eps_floor", "scaled_data", "empty_final_cluster"))
     from .. import drv_admm
     drv_admm.solver_sweep(rep, tier, {"C03"})
+    from . import _metrics
+    _metrics.floor_family(rep, tier, {"C03"})          # exact floor semantics on integer matrices
     t0 = allt[0]
     rep.sample({"hdr": {k: v for k, v in t0["hdr"].items() if k != "workerResults"},
                 "optimize_events": [{"round": e["round"], "o2": e["o2"], "o8": e["o8"]} for e in t0["events"]
